@@ -27,6 +27,11 @@ def configs(thorough):
             for extra in [[], ["--info=inline"], ["--border"], ["--header-lines", "2"]]:
                 out.append({"name": "%s %dx%d %s" % (lay, size[0], size[1], " ".join(extra)), "layout": lay, "args": ["--layout", lay] + extra, "size": size,
                             "header_lines": 2 if "--header-lines" in extra else 0, "border": "--border" in extra, "inline": "--info=inline" in extra})
+    # --header-first with info styles that draw their own separator row (only used by the header-visibility family)
+    for lay in ["default", "reverse"]:
+        for info in ["hidden", "inline-right", "default"]:
+            out.append({"name": "%s 10x40 --header-first --info=%s" % (lay, info), "layout": lay, "args": ["--layout", lay, "--header-first", "--info=" + info], "size": (10, 40),
+                        "header_lines": 0, "border": False, "inline": info != "default", "header_first": True, "info": info})
     return out
 
 
@@ -58,7 +63,9 @@ def structural(cfg, rows, x, q, prompt, header_on, header_text, wrap, all_items=
     # info
     info = "%d/%d" % (x["matchCount"], x["totalCount"])
     irow = [i for i, r in enumerate(body) if re.search(r"(^|[ <])%s( |$)" % re.escape(info), r)]
-    if not irow:
+    if cfg.get("info") == "hidden":
+        irow = []
+    elif not irow:
         probs.append("info-row: %s not shown" % info)
     elif sel and not any("(%d)" % len(sel) in body[i] for i in irow):
         probs.append("info-row: selected count (%d) not shown" % len(sel))
@@ -170,6 +177,10 @@ def run_hist(job):
                     q = q[:-1]
                 elif part == "toggle-header":
                     header_on = not header_on
+                elif part == "hide-header":
+                    header_on = False
+                elif part == "show-header":
+                    header_on = True
                 elif part.startswith("change-header("):
                     header_text = part[14:-1]  # visibility is not changed by change-header
                 elif part == "toggle-wrap":
@@ -251,6 +262,8 @@ def run(c, replay):
     depth = c.pick(2, 3)
     jobs = []
     for ci in range(len(cfgs)):
+        if cfgs[ci].get("header_first"):
+            continue
         for d in range(1, depth + 1):
             for h in itertools.product(ACTS, repeat=d):
                 if d == 2 and not c.thorough and (ci + ACTS.index(h[0])) % 2:
@@ -259,6 +272,12 @@ def run(c, replay):
                     continue
                 jobs.append((ci, h, c.thorough))
     c.bounds = dict(configurations=len(cfgs), actions=ACTS, depth=depth, items=len(ITEMS), sessions=len(jobs))
+    # header visibility histories of depth 3 on --header-first configurations with the info styles that draw a separator row of their own
+    hdr_acts = ["hide-header", "show-header", "toggle-header", "change-header(HDR)", "down"]
+    for ci, cfg in enumerate(cfgs):
+        if cfg.get("header_first"):
+            for h in itertools.product(hdr_acts, repeat=3):
+                jobs.append((ci, h, c.thorough))
     sweep.run_jobs(c, "histories", run_hist, jobs, deadline_s=c.pick(240, 2400),
                    rule="action histories up to the depth x layouts x window sizes x {plain, inline info, border, header-lines}; after every action: incremental screen == "
                         "screen after a forced full redraw, and the structural oracle against GET /")
